@@ -60,12 +60,12 @@ theorem C06_yd_rt (id : Nat) (data : Bytes) (hid : id < 2^32) (hd : 1 ≤ data.l
     decodeYd (ts ++ [' '] ++ dir ++ [' '] ++ (encodeYd id data).dropLast.dropLast) = .ok (frameOfId id data) := by
   exact yd_rt id data hid hd hb ts dir hts hsp hne hdir
 
-/-- Actisense round trip, once the `A<sec>.<ms>` token is prepended (whole payload, any length ≥ 1) -/
+/-- Actisense round trip, once the `A<sec>.<ms>` token is prepended (whole payload, any length, the empty payload included) -/
 theorem C06_actisense_rt (prio dst src pgn : Nat) (data : Bytes) (hp : prio < 16) (hd : dst < 256)
-    (hs : src < 256) (hg : pgn < 2^24) (hl : 1 ≤ data.length) (hb : ∀ b ∈ data, b < 256) :
+    (hs : src < 256) (hg : pgn < 2^24) (hb : ∀ b ∈ data, b < 256) :
     decodeActisense ("A000001.000 ".toList ++ encodeActisense prio dst src pgn data) =
       .ok { pgn := pgn, prio := prio, src := src, dst := dst, data := data } := by
-  exact actisense_rt prio dst src pgn data hp hd hs hg hl hb
+  exact actisense_rt prio dst src pgn data hp hd hs hg hb
 
 /-- a concatenation of fixed-size packets is split back into the same packets by cutting every 13
 (EByte: `readexactly(13)`) resp. 20 bytes -/
